@@ -92,6 +92,28 @@ impl World {
     }
 }
 
+/// what each worker is executing right now: (case, operation, operations of the case so far, since when); read by the
+/// dispatcher, which reports an operation that never returns instead of waiting for it forever
+pub type InFlight = std::sync::Arc<std::sync::Mutex<BTreeMap<usize, (String, String, Vec<String>, std::time::Instant)>>>;
+thread_local! {
+    pub static WATCH: std::cell::RefCell<Option<(InFlight, usize)>> = std::cell::RefCell::new(None);
+}
+fn watch_begin(case_ops: Vec<String>, op: &str) {
+    WATCH.with(|w| {
+        if let Some((m, id)) = &*w.borrow() {
+            let case = case_ops.first().cloned().unwrap_or_default();
+            m.lock().unwrap().insert(*id, (case, op.to_string(), case_ops, std::time::Instant::now()));
+        }
+    });
+}
+fn watch_end() {
+    WATCH.with(|w| {
+        if let Some((m, id)) = &*w.borrow() {
+            m.lock().unwrap().remove(id);
+        }
+    });
+}
+
 /// number of hand-written histories run before the random ones
 pub const N_DIRECTED: usize = 5;
 
@@ -152,7 +174,9 @@ impl<'a> Gen<'a> {
             HOp::Conn { send, get, .. } => (send.clone(), get.clone()),
             _ => (BTreeMap::new(), BTreeMap::new()),
         };
+        watch_begin(self.rep.case_ops(), &format!("{op:?}"));
         let (out, log) = self.sys.exec(&op, self.rep);
+        watch_end();
         if self.sys.http.is_some() && matches!(op, HOp::Reg { .. } | HOp::Add { .. } | HOp::Get { .. } | HOp::Sub { .. }) {
             if let Some((st, code)) = self.sys.last_http.take() {
                 self.rep.line("ht last", &format!("status={st} code={code}"));
@@ -512,9 +536,12 @@ pub fn run_mode2(seed: u64, thorough: bool, rep: &mut Report, http: bool, plugin
     let rngs = std::sync::Arc::new(std::sync::Mutex::new(rngs.into_iter().map(Some).collect::<Vec<_>>()));
     let workers = std::env::var("VERIF_WORKERS").ok().and_then(|x| x.parse().ok()).unwrap_or(if thorough { 12usize } else { 6 });
     let mut handles = vec![];
-    for _ in 0..workers.max(1) {
+    let inflight: InFlight = Default::default();
+    for wid in 0..workers.max(1) {
         let (boot, next, results, rngs) = (boot.clone(), next.clone(), results.clone(), rngs.clone());
+        let inflight = inflight.clone();
         handles.push(std::thread::spawn(move || loop {
+            WATCH.with(|w| *w.borrow_mut() = Some((inflight.clone(), wid)));
             let c = next.fetch_add(1, std::sync::atomic::Ordering::SeqCst);
             if c >= ncases {
                 break;
@@ -559,8 +586,27 @@ pub fn run_mode2(seed: u64, thorough: bool, rep: &mut Report, http: bool, plugin
             results.lock().unwrap().insert(c, rep);
         }));
     }
-    for h in handles {
-        let _ = h.join();
+    // wait for the workers; an operation that has not returned after a long while (a request handler or block handler
+    // that waits for a lock its own thread holds, say) is reported with the history that led to it, and its worker is
+    // given up on
+    let limit = std::time::Duration::from_secs(std::env::var("VERIF_OP_TIMEOUT").ok().and_then(|x| x.parse().ok()).unwrap_or(90));
+    let mut given_up: BTreeSet<usize> = BTreeSet::new();
+    loop {
+        if handles.iter().enumerate().all(|(i, h)| h.is_finished() || given_up.contains(&i)) {
+            break;
+        }
+        std::thread::sleep(std::time::Duration::from_millis(200));
+        let stuck: Vec<(usize, (String, String, Vec<String>, std::time::Instant))> =
+            inflight.lock().unwrap().iter().filter(|(i, v)| !given_up.contains(i) && v.3.elapsed() > limit).map(|(i, v)| (*i, v.clone())).collect();
+        for (i, (case, op, ops, _)) in stuck {
+            given_up.insert(i);
+            rep.begin_case(case.trim_start_matches("case "));
+            for l in ops.iter().skip(1) {
+                rep.line(&format!("tx {l}"), "-");
+            }
+            rep.fail("C11", "operation_never_returns", &format!("`{op}` had not returned after {} s: the tower is stuck (every later request or block touching the same locks waits forever)", limit.as_secs()));
+            rep.end_case(None);
+        }
     }
     let results = std::mem::take(&mut *results.lock().unwrap());
     for (_, r) in results {
